@@ -39,18 +39,22 @@ Definition fst3 (e : fin_entry) : nat := fst (fst e).
 Definition fstat (i : nat) : nat := fst3 (case_fin x i).
 Definition frc (i : nat) : nat := snd (fst (case_fin x i)).
 
-Definition ev_step (e : event) : nat := match e with EStart i _ => i | EEnd i _ _ => i end.
-Definition ev_time (e : event) : Z := match e with EStart _ t => t | EEnd _ _ t => t end.
+Definition ev_step (e : event) : nat := match e with EStart i _ => i | EEnd i _ _ => i | ECreateFail i _ => i end.
+Definition ev_time (e : event) : Z := match e with EStart _ t => t | EEnd _ _ t => t | ECreateFail _ t => t end.
 Definition is_start_of (i : nat) (e : event) : bool := match e with EStart j _ => j =? i | _ => false end.
+(* an attempt of step i begins: its Run is entered, or the creation of its command fails (a failed attempt without a command) *)
+Definition is_attempt_of (i : nat) (e : event) : bool :=
+  match e with EStart j _ | ECreateFail j _ => j =? i | _ => false end.
 
 (* outcomes of the attempts of step i, in order; an attempt still open at the end counts as [None] *)
 Fixpoint outcomes (i : nat) (tr : list event) : list bool :=
   match tr with
   | [] => []
   | EEnd j ok _ :: tr' => if j =? i then ok :: outcomes i tr' else outcomes i tr'
+  | ECreateFail j _ :: tr' => if j =? i then false :: outcomes i tr' else outcomes i tr'
   | _ :: tr' => outcomes i tr'
   end.
-Definition attempts (i : nat) (tr : list event) : nat := length (filter (is_start_of i) tr).
+Definition attempts (i : nat) (tr : list event) : nat := length (filter (is_attempt_of i) tr).
 
 (* does the final status of dependency d let dependents proceed / block them *)
 Definition permits (d : nat) : bool :=
@@ -66,15 +70,17 @@ Fixpoint open_of (d : nat) (past : list event) (* reversed: latest first *) : bo
   | [] => false
   | EStart j _ :: p => if j =? d then true else open_of d p
   | EEnd j _ _ :: p => if j =? d then false else open_of d p
+  | ECreateFail j _ :: p => if j =? d then false else open_of d p
   end.
 Fixpoint last_out (d : nat) (past : list event) : option bool :=
   match past with
   | [] => None
   | EEnd j ok _ :: p => if j =? d then Some ok else last_out d p
+  | ECreateFail j _ :: p => if j =? d then Some false else last_out d p
   | _ :: p => last_out d p
   end.
 Definition dep_fine (past future : list event) (d : nat) : bool :=
-  negb (open_of d past) && negb (existsb (is_start_of d) future) && permits d &&
+  negb (open_of d past) && negb (existsb (is_attempt_of d) future) && permits d &&
   match fstat d, last_out d past with
   | 4, Some ok => ok
   | 4, None => c_dry x
@@ -88,7 +94,7 @@ Fixpoint mon01_go (past future : list event) : bool :=
   | [] => true
   | e :: f =>
       (match e with
-       | EStart i _ => forallb (dep_fine past f) (deps (sp i))
+       | EStart i _ | ECreateFail i _ => forallb (dep_fine past f) (deps (sp i))
        | _ => true end) && mon01_go (e :: past) f
   end.
 Definition mon_C01 : bool := mon01_go [] (c_trace x).
@@ -127,6 +133,7 @@ Fixpoint never_twice (i : nat) (isopen : bool) (tr : list event) : bool :=
   | [] => true
   | EStart j _ :: t => if j =? i then negb isopen && never_twice i true t else never_twice i isopen t
   | EEnd j _ _ :: t => if j =? i then isopen && never_twice i false t else never_twice i isopen t
+  | ECreateFail j _ :: t => if j =? i then negb isopen && never_twice i false t else never_twice i isopen t
   end.
 Definition mon03_node (i : nat) : bool :=
   let a := attempts i (c_trace x) in
@@ -143,7 +150,7 @@ Definition mon_C03 : bool := forallb mon03_node (seq 0 nn).
 
 (* ---- C15: never more than k commands open, a step inside its retry interval counts ---- *)
 (* open: steps with an open Run; waiting: (step, exit stamp) of failed attempts that are retried later *)
-Definition will_retry (i : nat) (future : list event) : bool := existsb (is_start_of i) future.
+Definition will_retry (i : nat) (future : list event) : bool := existsb (is_attempt_of i) future.
 Definition occupied (t : Z) (i : nat) (waiting : list (nat * Z)) : nat :=
   length (filter (fun p => negb (fst p =? i) && (t + eps <? snd p + case_ivl x (fst p))%Z) waiting).
 Fixpoint mon15_go (k : nat) (opn : list nat) (waiting : list (nat * Z)) (tr : list event) : bool :=
@@ -156,6 +163,10 @@ Fixpoint mon15_go (k : nat) (opn : list nat) (waiting : list (nat * Z)) (tr : li
       let opn' := remove Nat.eq_dec i opn in
       let waiting' := if negb ok && will_retry i f then (i, t) :: waiting else waiting in
       mon15_go k opn' waiting' f
+  | ECreateFail i t :: f =>      (* the attempt held a slot when it began; it may be retried like a failed one *)
+      let waiting0 := filter (fun p => negb (fst p =? i)) waiting in
+      let waiting' := if will_retry i f then (i, t) :: waiting0 else waiting0 in
+      (length opn + occupied t i waiting + 1 <=? k) && mon15_go k opn waiting' f
   end.
 Definition mon_C15 : bool := if c_k x =? 0 then true else mon15_go (c_k x) [] [] (c_trace x).
 
